@@ -42,6 +42,7 @@ type c07Struct struct {
 	A int32
 	B uint8
 	C [3]uint16
+	Pad [7]uint64 // makes the value (and with it a map item) larger than a cache line: implementations may treat big items differently
 }
 
 func hashFor(slot, slots, variant int) uint64 {
@@ -151,7 +152,11 @@ func (x c07Int) str() string    { return x.m.String() }
 type c07St struct{ m *strmap.StrMap[c07Struct] }
 
 func mkStruct(id int) c07Struct {
-	return c07Struct{A: int32(id), B: uint8(id * 3), C: [3]uint16{uint16(id), 0xffff, uint16(id * 5)}}
+	v := c07Struct{A: int32(id), B: uint8(id * 3), C: [3]uint16{uint16(id), 0xffff, uint16(id * 5)}}
+	for i := range v.Pad {
+		v.Pad[i] = uint64(id)*0x9e3779b97f4a7c15 + uint64(i)
+	}
+	return v
 }
 func (x c07St) load(kk []string, ids []int, via string) error {
 	vv := make([]c07Struct, len(ids))
